@@ -59,15 +59,14 @@ LEVEL_TEXT = ('Machine-checked theorems about the program regenerated from src/p
               'internally, tweens and view derivers nest in list order with an explicit tween list winning; plus, on the reference '
               'model, cycle_iff_error in both directions, tween histories, predicate directives, the default deriver order '
               '(secured_view first) and, after any add_view_deriver calls, every deriver outside mapped_view (user callable innermost); the regenerated argument processing of add_view_deriver / _add_tween equals the model and '
-              'feeds the judged scenarios end to end (C18_gen_derivers_scenario_judged, C18_gen_tweens_history_add), likewise the predicate directive chain (C18_gen_pred_chain_is_spec, C18_gen_preds_scenario_judged); PredicateList.make regenerated and proved to create (= evaluate) the predicates in an order honouring every weighs_more_than/weighs_less_than constraint (C18_gen_make_order_respects); the executable wire '
+              'feeds the judged scenarios end to end (C18_gen_derivers_scenario_judged, C18_gen_tweens_history_add), likewise the predicate directive chain (C18_gen_pred_chain_is_spec, C18_gen_preds_scenario_judged); PredicateList.make regenerated and proved to create (= evaluate) the predicates in an order honouring every weighs_more_than/weighs_less_than constraint (C18_gen_make_order_respects); end-to-end composition for derivers (C18_derivers_end_to_end) and the batch/include rule stated in Coq with the history judge on the effective history (C18_batch_flush_spec, C18_batch_history_judged); the executable wire '
               'judges accept every answer of the model (C18_wire_*_judged). Ties: generated = model theorems (no shape pins on the translated functions), regenerated '
               'constants, 30 shape pins + 4 masked pins on the untranslated functions / statements, a structural fact on setup_registry, '
               'differential run with the Coq judge on the implementation.')
 LEVEL_NOTE = ('Trusted: Coq kernel; the translator\'s primitive table (leaf claims about dict/list/set methods, the graph entry '
               'representation, the unchecked list.remove on order/req_* which is unreachable by C18_rep_reachable, the fuel = '
               'len(graph) of the while loop whose exhaustion is proved impossible); the hand-written model of the untranslated '
-              'functions (pinned); the tables of the directive and make translators (pred.phash() opaque); Python harness (incl. the '
-              'include/override rule of batch histories). The wire-level judges are proved through the outermost run_C18 dispatch for tags 0-7; for tag 8 (make) at the decoded level (C18_wire_make_judged).')
+              'functions (pinned); the tables of the directive and make translators (pred.phash() opaque); Python harness (incl. _tw_keep, a Python mirror of the Coq function `effective`; that C04\'s commit executes exactly these statements is taken from C04, not proved here). The wire-level judges are proved through the outermost run_C18 dispatch for tags 0-7; for tag 8 (make) at the decoded level (C18_wire_make_judged).')
 ALLOWED_AXIOMS = ()
 PROOF_TIMEOUT = 1500
 
